@@ -176,6 +176,11 @@ func (m *Variant) Decode(b []byte) (int, error) {
 		if m.arrayDimensionsLength < 0 {
 			return buf.Pos(), StatusBadEncodingLimitsExceeded
 		}
+		// every dimension takes four bytes: do not allocate for more
+		// dimensions than the rest of the buffer can hold
+		if int(m.arrayDimensionsLength) > buf.Len()/4 {
+			return buf.Pos(), StatusBadEncodingLimitsExceeded
+		}
 		m.arrayDimensions = make([]int32, m.arrayDimensionsLength)
 		for i := 0; i < int(m.arrayDimensionsLength); i++ {
 			m.arrayDimensions[i] = buf.ReadInt32()
